@@ -67,6 +67,27 @@ func entries(fc uint8, rtu bool) []entry {
 	return out
 }
 
+func decoy(c Case, r spec.Req) {
+	defer func() { recover() }()
+	d := r
+	d.Unit, d.TID, d.Addr = r.Unit^0x55, r.TID^0xFFFF, r.Addr^0x0F0F
+	switch c.FC {
+	case 15:
+		d.Qty, d.Data = 40, []byte{0xA5, 0x5A, 0xA5, 0x5A, 0xA5}
+	case 16:
+		d.Qty, d.Data = 3, []byte{0xA5, 0x5A, 0xA5, 0x5A, 0xA5, 0x5A}
+	case 23:
+		d.Qty, d.WQty, d.Data = 2, 3, []byte{0xA5, 0x5A, 0xA5, 0x5A, 0xA5, 0x5A}
+	case 6:
+		d.Value = 0xA55A
+	default:
+		d.Qty = 1
+	}
+	if q, err := lib.NewRequest(d, c.RTU); err == nil && !lib.IsNil(q) {
+		_ = q.Bytes()
+	}
+}
+
 func eval(c Case, res *ev.Result, lc *local) {
 	lc.evals++
 	r := c.req()
@@ -91,6 +112,9 @@ func eval(c Case, res *ev.Result, lc *local) {
 		}
 		orig = q
 		frame = q.Bytes()
+		// from a non-initial state: another request of the same kind is serialised before this frame is parsed (an
+		// encoder that hands out a view into shared / pooled storage shows here)
+		decoy(c, r)
 		if !bytes.Equal(frame, r.Frame(c.RTU)) {
 			// encoder disagrees with the specification: C01's business; the round trip is still checked on the library's bytes
 			res.Add("encoder_disagrees_with_spec", 1)
